@@ -18,10 +18,20 @@ func verifC13Analyze() {
 	npre := vRange("npre", 3, vParam("maxnpre", 4))
 	npost := vRange("npost", 1, vParam("maxnpost", 3))
 	n := npre + npost
-	dsp := NewDataStreamProcessor(0, nil, npre, n)
+	// the channel's nominal pre-trigger length may exceed the record's own: variable-length
+	// (edge-multi) records are shortened at the front; the formulas use the record's lengths
+	extra := vRange("chanextra", 0, 1)
+	dsp := NewDataStreamProcessor(0, nil, npre+extra, n+extra)
 	rec := &DataRecord{data: make([]RawType, n), presamples: npre, signed: vRange("signed", 0, 1) == 1}
+	boundary := vParam("boundary", 0) == 1
 	for i := range rec.data {
-		rec.data[i] = RawType(vSymU16R("d" + string(rune('a'+i))))
+		if boundary {
+			// every sample from the boundary values of the 16-bit range (concrete arithmetic,
+			// compared up to rounding): the sign change at 0x8000, both rails
+			rec.data[i] = []RawType{0, 1, 0x7fff, 0x8000, 0xffff, 300}[vRange("d"+string(rune('a'+i)), 0, 5)]
+		} else {
+			rec.data[i] = RawType(vSymU16R("d" + string(rune('a'+i))))
+		}
 	}
 	dsp.AnalyzeData([]*DataRecord{rec})
 
@@ -51,7 +61,14 @@ func verifC13Analyze() {
 	N := float64(npost)
 	vCheck(vRealEq(rec.pulseAverage, psum/N), "pulse average = mean of (sample - pretrigger mean) after the trigger")
 	vCheck(vRealLe(0, rec.pulseRMS), "pulse RMS is non-negative")
-	vCheck(vRealEq(rec.pulseRMS*rec.pulseRMS, psq/N), "pulse RMS^2 = mean squared deviation from the pretrigger mean")
+	if boundary {
+		// concrete float64 arithmetic: the code's expanded form (sum of squares minus cross
+		// term) loses digits by cancellation at full scale; compare with an absolute allowance
+		diff := rec.pulseRMS*rec.pulseRMS - psq/N
+		vCheck(diff < 1e-3 && diff > -1e-3, "pulse RMS^2 = mean squared deviation from the pretrigger mean (to rounding)")
+	} else {
+		vCheck(vRealEq(rec.pulseRMS*rec.pulseRMS, psq/N), "pulse RMS^2 = mean squared deviation from the pretrigger mean")
+	}
 	isOne := vRealEq(rec.peakValue, 0) // the pre-trigger mean itself takes part in the maximum
 	vCheck(vRealLe(0, rec.peakValue), "peak value >= 0 (the pretrigger mean takes part in the maximum)")
 	for i := npre; i < n; i++ {
